@@ -297,7 +297,7 @@ def _var_kinds():
             if n.op == 'rpow':
                 strict.add(vid)
             elif n.op == 'fn':
-                sg = core.CTX.__dict__.get('fn_sign', {}).get(n.val)
+                sg = core.CTX.__dict__.get('fn_sign', {}).get(n.val) or quick_sign(n)
                 if sg == '>0':
                     strict.add(vid)
                 elif sg == '>=0':
@@ -465,6 +465,17 @@ def quick_sign(node):
             r = '>0' if a == '>0' else None
         elif op == 'fn':
             r = ctx.__dict__.get('fn_sign', {}).get(n.val)
+            if r is None and n.val in ('log', 'log10') and len(n.args) == 1:
+                # log x > 0 for x > 1 (x - 1 certified positive)
+                memo[n.id] = None        # guard against re-entry through sign_certificate
+                try:
+                    s1 = sign_certificate(core.sub(n.args[0], core.C(1)), factor=False)
+                except Exception:
+                    s1 = None
+                if s1 == '>0':
+                    r = '>0'
+                elif s1 == '>=0':
+                    r = '>=0'
         memo[n.id] = r
     return memo[node.id]
 
@@ -500,15 +511,28 @@ def _subst_var(p, vid, repl_terms):
     return out
 
 
+MONOTONE_FNS = ('log', 'log10', 'exp', 'arctan')
+
+
 def sqrt_monotone_sign(node):
-    """sign certificate for `node` using sqrt(X_b) >= sqrt(X_a) whenever X_b - X_a is certified >= 0"""
+    """sign certificate for `node` using monotonicity of sqrt / log / exp:
+    X_b - X_a certified >= 0  =>  f(X_b) = f(X_a) + delta with delta >= 0"""
     try:
         fr = convert(node)
     except Exception:
         return None
     n = reduce_numer(fr.n) if fr.n else fr.n
     names = core.CTX.__dict__.get('_vname', {})
-    sq = sorted({v for m in n for v, _ in m if names.get(v, '').startswith('v_sqrt@')})
+    args = {}
+    for v in sorted({v for m in n for v, _ in m}):
+        nm = names.get(v, '')
+        if nm.startswith('v_sqrt@'):
+            args[v] = ('sqrt', core.CTX.atoms[nm[2:]]['defn'][1])
+        elif nm.startswith('o_'):
+            nd = core.CTX.nodes[int(nm[2:])]
+            if nd.op == 'fn' and nd.val in MONOTONE_FNS and len(nd.args) == 1:
+                args[v] = (nd.val, nd.args[0])
+    sq = sorted(args)
     if len(sq) < 2 or len(sq) > 6:
         return None
     strict, nonneg = _var_kinds()
@@ -517,21 +541,19 @@ def sqrt_monotone_sign(node):
         sd = _poly_sign(reduce_numer(p), strict, nonneg)
         if sd is None or sd[0] != '+' or not sd[1]:
             return None
-    rad = {v: core.CTX.atoms[names[v][2:]]['defn'][1] for v in sq}
     order = []
     for a in sq:
         for b in sq:
-            if a != b:
-                s_ = sign_certificate(core.sub(rad[b], rad[a]), factor=False)
+            if a != b and args[a][0] == args[b][0]:
+                s_ = sign_certificate(core.sub(args[b][1], args[a][1]), factor=False)
                 if s_ in ('>=0', '>0', '==0'):
                     order.append((a, b))
-    # eliminate greedily: replace b by a + delta for pairs (a, b), largest first
     cur = n
     used = set()
     for a, b in order:
         if b in used or a in used:
             continue
-        d = core.CTX.var(f'sqrtgap@{a}_{b}', kind='nonneg')
+        d = core.CTX.var(f'monogap@{a}_{b}', kind='nonneg')
         dv = _vid('v_' + d.val)
         nonneg.add(dv)
         cur = _subst_var(cur, b, {((a, 1),): 1, ((dv, 1),): 1})
